@@ -141,11 +141,21 @@ def run(ctx, args):
     n_eval = 0
     bad_fns = {}
     for lvl, prog in progs:
-        out, err, rc = run_prog(prog, input="\n".join(lines_real) + "\n", timeout=1800)
-        real = [l for l in err.split("\n") if l]
+        # a process killed by a signal (e.g. SIGFPE from an unguarded sdiv) is an answer too: the request it died on
+        # is the failing operand; the run resumes after it
+        pos, real, deaths = 0, [], 0
+        while pos < len(lines_real) and deaths < 40:
+            out, err, rc = run_prog(prog, input="\n".join(lines_real[pos:]) + "\n", timeout=1800)
+            got = [l for l in err.split("\n") if l and l.split(" ")[0].isdigit()]
+            real += got[:len(lines_real) - pos]
+            pos += len(got)
+            if pos < len(lines_real):
+                deaths += 1
+                i, x, y = meta[pos]
+                real.append("%d killed(rc=%s)" % (i, rc))
+                pos += 1
         if len(real) != len(lines_real):
-            ctx.log("evaluator %s produced %d lines for %d requests (rc=%s): %s" % (lvl, len(real), len(lines_real), rc, err[-300:]))
-            ctx.report_broken("evaluator-%s" % lvl, "the llgo-compiled evaluator died: rc=%s, %d/%d answers" % (rc, len(real), len(lines_real)))
+            ctx.report_broken("evaluator-%s" % lvl, "the llgo-compiled evaluator died %d times: %d/%d answers" % (deaths, len(real), len(lines_real)))
             continue
         for k, (r, sp) in enumerate(zip(real, spec_out)):
             n_eval += 1
@@ -153,7 +163,7 @@ def run(ctx, args):
             o = obs[i]
             rf = r.split(" ")
             got = rf[1] if len(rf) == 2 else r
-            if got != "panic":
+            if got != "panic" and not got.startswith("killed"):
                 try:
                     got = str(int(got) & ((1 << result_width(o)) - 1))
                 except ValueError:
@@ -245,6 +255,10 @@ def float_phase(ctx, quick):
             fb = fopsgen.fboundary(w)
             ops_ = [(rng.choice(fb), rng.choice(fb), rng.choice(fb), rng.choice(fb)) for _ in range(150 if quick else 3000)]
             ops_ += [(a, b, a, b) for a in fb[:12] for b in fb[:12]]
+            # zero and infinite divisors/factors against every special dividend (the fix-up branches of Complex128Div)
+            z0, zn = fb[0], fb[1]
+            special = [v for v in fb if canon(v, w) == "nan" or v in (z0, zn)] + fb[2:6] + [v for v in fb if (v & ((1 << (w - 1)) - 1)) == ({64: 0x7ff0000000000000, 32: 0x7f800000}[w])]
+            ops_ += [(a, b, c_, d_) for a in special for b in special for (c_, d_) in ((z0, z0), (zn, z0), (z0, zn), (zn, zn), (special[-1], z0), (z0, special[-1]))]
         else:  # cun
             fb = fopsgen.fboundary(w)
             ops_ = [(a, b, 0, 0) for a in fb for b in fb[::3]]
@@ -266,7 +280,7 @@ def float_phase(ctx, quick):
             return 64
         if c["kind"] == "i2f":
             return c["fw"]
-        return c["w"]
+        return c["w"]      # (incl. Neg_complex*: same width as the operand)
 
     for lvl, prog in progs:
         _, err, rc = run_prog(prog, input=inp, timeout=1800)
